@@ -418,6 +418,11 @@ class E2ESurface(core.Surface):
         return core.impl_call(reval)
 
     def agree(self, x, i, m):
+        if x.get("valid") and i[0] == "EXC":
+            # a template that is valid by construction (instances of the live schema, functions only where text is expected): an
+            # exception from parse / resolve is never "the same failure on both sides" -- the model side ends with the same
+            # CFModel(**plain) re-validation, so a field that starts refusing resolved text would fail there too
+            return False
         if i[0] == "EXC" and m[0] == "EXC":
             return True    # which of several failing parts is reported first is an evaluation-order artefact
         return super().agree(x, i, m)
